@@ -30,7 +30,7 @@ from vlib.core import enc_str, enc_bool, enc_opt, enc_list, enc_N
 
 HEADER = """From Coq Require Import List NArith ZArith Bool String.
 Import ListNotations.
-Require Import RV.Lib.PyStr RV.Model.ContentLine RV.Model.Vobj RV.Model.Export RV.Model.Split RV.Model.Codec.
+Require Import RV.Lib.PyStr RV.Model.ContentLine RV.Model.Vobj RV.Model.Export RV.Model.Split RV.Model.Codec RV.Model.UidAssign.
 Open Scope N_scope.
 Definition eq_os (a b : option pystr) := match a, b with Some x, Some y => eqs x y | None, None => true | _, _ => false end.
 (* model vs implementation on an upload: when the implementation ACCEPTS, the model must give the same bytes; when it
@@ -325,6 +325,34 @@ def run(ctx):
     corr(ctx, "utf8_dec", "dec utf8", [(b, py_dec(b, "utf-8")) for b in blobs], core.enc_bytes, enc_opt(enc_str), "eq_os")
     corr(ctx, "latin1_enc", "enc latin1", [(t, py_enc(t, "latin-1")) for t in texts], enc_str, enc_b, "eq_os")
     corr(ctx, "latin1_dec", "dec latin1", [(b, py_dec(b, "latin-1")) for b in blobs], core.enc_bytes, enc_opt(enc_str), "eq_os")
+
+    # ------------------------------------------------------------ UID assignment of whole-collection uploads (Model/UidAssign.v)
+    def real_assign(lines, tag):
+        """check_and_sanitize_items(is_collection=True) on one object whose UID lines are `lines` (values, in order)."""
+        orig = ritem.find_available_uid
+        ritem.find_available_uid = lambda exists_fn, suffix="": "FRESH"
+        try:
+            if tag == "VADDRESSBOOK":
+                text = "BEGIN:VCARD\r\nVERSION:3.0\r\nFN:x\r\n" + "".join("UID:%s\r\n" % v for v in lines) + "END:VCARD\r\n"
+            else:
+                text = ("BEGIN:VCALENDAR\r\nVERSION:2.0\r\nPRODID:-//x//EN\r\nBEGIN:VEVENT\r\nDTSTAMP:20200101T000000Z\r\nDTSTART:20200102T100000Z\r\n"
+                        + "".join("UID:%s\r\n" % v for v in lines) + "END:VEVENT\r\nEND:VCALENDAR\r\n")
+            items = ritem.read_components(text)
+            ritem.check_and_sanitize_items(items, is_collection=True, tag=tag)
+            holder = items[0] if tag == "VADDRESSBOOK" else items[0].vevent
+            return [u.value for u in holder.contents.get("uid", [])]
+        except Exception:
+            return None
+        finally:
+            ritem.find_available_uid = orig
+    uid_cases = []
+    for tag in ("VADDRESSBOOK", "VCALENDAR"):
+        for lines in ([], [""], ["a"], ["", ""], ["", "b"], ["a", ""], ["a", "b"], ["", "", "c"]):
+            out = real_assign(lines, tag)
+            if out is not None:
+                uid_cases.append((lines, out))
+    corr(ctx, "assign_uid", "(fun vs => uid_values (assign_uid (str \"FRESH\") (L (mkCl None (str \"FN\") [] (str \"x\")) :: map (fun v => L (mkCl None s_UID [] v)) vs)))",
+         uid_cases, lambda l: "(%s : list pystr)" % enc_list(enc_str)(l), lambda l: "(%s : list pystr)" % enc_list(enc_str)(l), "eq_ls", key=repr)
 
     # ------------------------------------------------------------ read_components text clean-ups
     photo_lines = []
